@@ -135,9 +135,22 @@ def make_case(r, lexical_corner=False):
                           '(push 1)(pop 1)\n'])
     rules, pred = workload.pick_spec(r, text,
                                      nclasses=r.choice([2, 2, 3]))
+    nontext = None
+    if r.random() < 0.12:
+        # a command whose messages are not text: the two classes differ in
+        # one byte that is not valid UTF-8 (same exit status)
+        junk = r.sample(['%FF', '%FE', '%80', '%C3%28', '%E9'], 2)
+        stream = r.choice(['out', 'err'])
+        rules = [f'{pred} => exit=3 {stream}=bad%20state%20{junk[0]}%0A',
+                 f'all => exit=3 {stream}=bad%20state%20{junk[1]}%0A']
+        nontext = stream
     i, ex, out, err, fault = realrun.eval_spec(rules, text)
     golden = (ex, out, err)
     cmp_opts = workload.comparison_options(r, golden)
+    if nontext:
+        # the stream that differs is compared as a whole
+        cmp_opts = r.choice([[], [], ['--ignore-err'] if nontext == 'out'
+                             else ['--ignore-out']])
     strat = r.choice(workload.STRATEGIES)
     j = r.choice([1, 1, 2, 4, 8])
     opts = ['--strategy', strat, '-j', str(j), '--timeout', '20']
@@ -164,6 +177,7 @@ def make_case(r, lexical_corner=False):
         'delay': delay,
         'lexical_corner': lexical_corner,
         'cc_same_basename': same_basename,
+        'non_text_output': nontext,
     }
     return text, rules, cc_rules, cmp_opts, cc_ignore, opts, delay, desc
 
@@ -176,6 +190,8 @@ def run_case(res, r, wd, case):
                                                       False))
     if desc.get('cc_same_basename'):
         res.count('runs_with_equally_named_executables')
+    if desc.get('non_text_output'):
+        res.count('runs_with_non_text_command_output')
     verdict = judge_run(res, r, run, rules, cc_rules, cmp_opts, cc_ignore,
                         desc)
     res.count(f'verdict_{verdict}')
